@@ -44,7 +44,7 @@ Definition shares_ancestor (b : block) (s : commit) : bool :=
   existsb (fun a => existsb (fun x => x =? a) (b_anc b)) (cm_anc s).
 
 Definition side_work_ok (b : block) (s : commit) : bool :=
-  let d23 := b_diff b * 2 / 3 in
+  let d23 := if b_diff b * 2 / 3 =? 0 then b_diff b else b_diff b * 2 / 3 in
   negb (d23 =? 0) && (cm_pow s <=? max128 / d23).
 
 (* one boolean per clause of the property; [p] is the parent *)
